@@ -1055,7 +1055,7 @@ func parseClause(fc *FuncContract, word, rest, file string, line int) error {
 		}
 		if g := strings.Index(rest[1:], "\" ghost "); g >= 0 && (strings.Index(rest[1:], "\" assert") < 0 || g < strings.Index(rest[1:], "\" assert")) {
 			// at "<stmt>" ghost <name> = expr : a ghost value captured immediately before the statement
-			key := strings.Join(strings.Fields(rest[1:1+g]), " ") + ordSuffix
+			key := strings.Join(strings.Fields(unescapeAnchor(rest[1:1+g])), " ") + ordSuffix
 			def := strings.TrimSpace(rest[1+g+len("\" ghost "):])
 			eq := strings.Index(def, "=")
 			if eq <= 0 {
@@ -1076,7 +1076,7 @@ func parseClause(fc *FuncContract, word, rest, file string, line int) error {
 		if j < 0 {
 			return fmt.Errorf("at \"stmt\" assert [label] expr")
 		}
-		key := strings.Join(strings.Fields(rest[1:1+j]), " ") + ordSuffix
+		key := strings.Join(strings.Fields(unescapeAnchor(rest[1:1+j])), " ") + ordSuffix
 		label, tags, src := parseLabel(rest[1+j+len("\" assert"):])
 		e, err := parseSpecExpr(src)
 		if err != nil {
@@ -1211,4 +1211,20 @@ func specCalls(e SExpr, acc map[string]bool) {
 		specCalls(x.A, acc)
 		specCalls(x.B, acc)
 	}
+}
+
+// unescapeAnchor: the statement text of an at-clause is written between double quotes; \" and \\ inside it stand
+// for a quote and a backslash of the Go source.
+func unescapeAnchor(t string) string {
+	if !strings.Contains(t, "\\") {
+		return t
+	}
+	var b strings.Builder
+	for i := 0; i < len(t); i++ {
+		if t[i] == '\\' && i+1 < len(t) && (t[i+1] == '"' || t[i+1] == '\\') {
+			i++
+		}
+		b.WriteByte(t[i])
+	}
+	return b.String()
 }
